@@ -55,11 +55,15 @@ def _active():
     return ctx
 
 
-def kkt_cond(xpt):
+def kkt_cond(xpt, scale=None):
     """Condition number of the scaled interpolation (KKT) matrix, computed
-    independently of cobyqa.models.build_system."""
+    independently of cobyqa.models.build_system.  By default the points are
+    normalised by the largest norm (scale-invariant); with `scale` they are
+    measured against that fixed length (a whole set that is tiny or huge
+    relative to the trust region is then ill-conditioned too)."""
     n, npt = xpt.shape
-    scale = max(float(np.max(np.linalg.norm(xpt, axis=0), initial=0.0)), EPS)
+    if scale is None:
+        scale = max(float(np.max(np.linalg.norm(xpt, axis=0), initial=0.0)), EPS)
     xs = xpt / scale
     a = np.zeros((npt + n + 1, npt + n + 1))
     a[:npt, :npt] = 0.5 * (xs.T @ xs) ** 2
@@ -111,6 +115,11 @@ def _snapshot_models(ctx, models, op, extra=None):
             rec["mag_ceq"] = [float(v) for v in np.max(np.abs(models.ceq_val), axis=0, initial=0.0)]
             rec["npt"] = int(itp.npt)
             rec["n"] = int(itp.n)
+            rec["same_data"] = bool(all(np.array_equal(models.fun_val, t[:, i])
+                                        for t in (models.cub_val, models.ceq_val) for i in range(t.shape[1])))
+            xpt = np.array(itp.xpt, dtype=float)
+            rec["set_scale"] = float(np.max(np.linalg.norm(xpt, axis=0), initial=0.0))
+            rec["abs_max"] = float(np.max(np.abs(xpt + np.array(itp.x_base, dtype=float)[:, None]), initial=0.0))
         except Exception as e:  # probe gives up for this event
             rec["error"] = "%s: %s" % (type(e).__name__, e)
             ps.errors.append(rec["error"])
